@@ -35,6 +35,8 @@ func main() {
 		os.Exit(cmdSweep(os.Args[2:]))
 	case "variant":
 		os.Exit(cmdVariant(os.Args[2:]))
+	case "renames":
+		os.Exit(cmdRenames(os.Args[2:]))
 	default:
 		usage()
 	}
